@@ -261,7 +261,7 @@ def survey(modname, tier, seed, n):
     def note(case):
         out = mod.run_case(case)
         for d in out.discs:
-            key = (d.kind, d.finding, ' '.join(out.labels[:2]))
+            key = (d.kind, d.finding, ' '.join(out.labels[:int(os.environ.get('SURVEY_LABELS', '2'))]))
             b = buckets.setdefault(key, [0, None, None])
             b[0] += 1
             if b[1] is None or len(canon(case)) < len(canon(b[1])):
